@@ -1,0 +1,98 @@
+//! Verification hooks. This module is compiled only with `--cfg qwt_verif`
+//! and is never part of a normal build of the crate.
+//!
+//! It offers two observation points to an external test harness:
+//! - control over (and a record of) the order in which symbols of equal code
+//!   length are enumerated while crafting wavelet-matrix Huffman codes;
+//! - a monitor for data-dependent indices used with `get_unchecked`.
+use std::cell::{Cell, RefCell};
+
+/// How symbols with the same code length are ordered by `craft_wm_codes`.
+#[derive(Clone, Debug, Default, PartialEq, Eq)]
+pub enum TieMode {
+    /// Keep the order produced by the hash map (the crate's normal behaviour).
+    #[default]
+    Natural,
+    /// Increasing symbol value.
+    Asc,
+    /// Decreasing symbol value.
+    Desc,
+    /// Pseudo-random order derived from the seed.
+    Seed(u64),
+    /// Symbols listed first come first; unlisted symbols follow by value.
+    Order(Vec<usize>),
+}
+
+thread_local! {
+    static TIE: RefCell<TieMode> = RefCell::new(TieMode::Natural);
+    static LAST: RefCell<Vec<Vec<(usize, u32)>>> = const { RefCell::new(Vec::new()) };
+    static IDX_ON: Cell<bool> = const { Cell::new(false) };
+    static IDX: RefCell<Vec<(&'static str, usize, usize)>> = const { RefCell::new(Vec::new()) };
+}
+
+pub fn set_tie_mode(mode: TieMode) {
+    TIE.with(|t| *t.borrow_mut() = mode);
+}
+
+/// Returns (and clears) the symbol orders used by the constructions run on
+/// this thread since the last call, as lists of `(symbol, code length)`.
+pub fn take_tie_orders() -> Vec<Vec<(usize, u32)>> {
+    LAST.with(|l| std::mem::take(&mut *l.borrow_mut()))
+}
+
+fn mix(mut x: u64) -> u64 {
+    x = x.wrapping_add(0x9E3779B97F4A7C15);
+    x = (x ^ (x >> 30)).wrapping_mul(0xBF58476D1CE4E5B9);
+    x = (x ^ (x >> 27)).wrapping_mul(0x94D049BB133111EB);
+    x ^ (x >> 31)
+}
+
+/// Called right after the (stable) sort by code length. Only reorders
+/// elements inside groups of equal length, then records the final order.
+pub fn order_ties<X>(f: &mut [X], sym: impl Fn(&X) -> usize, len: impl Fn(&X) -> u32) {
+    let mode = TIE.with(|t| t.borrow().clone());
+    match mode {
+        TieMode::Natural => {}
+        TieMode::Asc => f.sort_by_key(|x| (len(x), sym(x))),
+        TieMode::Desc => f.sort_by_key(|x| (len(x), usize::MAX - sym(x))),
+        TieMode::Seed(s) => f.sort_by_key(|x| (len(x), mix(s ^ mix(sym(x) as u64)), sym(x))),
+        TieMode::Order(o) => f.sort_by_key(|x| {
+            let p = o.iter().position(|&y| y == sym(x)).unwrap_or(usize::MAX);
+            (len(x), p, sym(x))
+        }),
+    }
+    LAST.with(|l| l.borrow_mut().push(f.iter().map(|x| (sym(x), len(x))).collect()));
+}
+
+pub fn idx_enable(on: bool) {
+    IDX_ON.with(|c| c.set(on));
+    if !on {
+        IDX.with(|v| v.borrow_mut().clear());
+    }
+}
+
+/// Records that `site` is about to access element `index` of a slice of `len` elements.
+#[inline]
+pub fn idx(site: &'static str, index: usize, len: usize) {
+    if IDX_ON.with(|c| c.get()) {
+        IDX.with(|v| {
+            let mut v = v.borrow_mut();
+            // keep one in-bounds witness (the largest index) and every violation per site
+            if index >= len {
+                if v.len() < 4096 {
+                    v.push((site, index, len));
+                }
+            } else if let Some(e) = v.iter_mut().find(|e| e.0 == site && e.1 < e.2) {
+                if index > e.1 || len != e.2 {
+                    *e = (site, index, len);
+                }
+            } else {
+                v.push((site, index, len));
+            }
+        });
+    }
+}
+
+pub fn take_idx() -> Vec<(&'static str, usize, usize)> {
+    IDX.with(|v| std::mem::take(&mut *v.borrow_mut()))
+}
